@@ -385,6 +385,10 @@ def check(facts, rep, tier, cfg):
         "rusty_penguin_lib::client::Error": {"HandshakeTimeout": True, "StreamRequestTimeout": True, "ServerDisconnected": True,
                                              "Tungstenite": "call", "TcpConnect": "call", "Tls": "call", "Mux": "call"},
         "penguin_mux::Error": {"KeepaliveTimeout": True, "Closed": True, "WebSocket": "call"},
+        "tungstenite::error::Error": {"AlreadyClosed": True, "ConnectionClosed": True, "Io": "call", "Protocol": "call"},
+        "tungstenite::error::ProtocolError": {"ResetWithoutClosingHandshake": True, "HandshakeIncomplete": True,
+                                              "ReceivedAfterClosing": True, "SendAfterClosing": True},
+        "rusty_penguin_lib::tls::Error": {"TcpConnect": "call"},
     }
     k8 = 0
     for b in crate.bodies:
@@ -429,12 +433,12 @@ def check(facts, rep, tier, cfg):
             k8 += 1
             got = table.get(var) or table.get("*") or set()
             if got == {want}:
-                rep.ok("C19.R8", "%s::%s" % (adt.split("::")[-2] if adt.startswith("rusty") else "mux", var), where, "-> %s" % want)
+                rep.ok("C19.R8", "%s::%s" % (r8name(adt), var), where, "-> %s" % want)
             else:
-                rep.bad("C19.R8", "%s::%s" % (adt.split("::")[-2] if adt.startswith("rusty") else "mux", var), where,
+                rep.bad("C19.R8", "%s::%s" % (r8name(adt), var), where,
                         "%s::%s is classified %s by retryable(), expected %s: a connection lost / not established for this reason ends the "
                         "client (or drops the parked request) instead of being retried" % (adt.split("::")[-1], var, sorted(map(str, got)), want))
-    rep.floor("C19.R8", "classified variants", k8, 10)
+    rep.floor("C19.R8", "classified variants", k8, 19)
     # ---- R1 (else arm) / R4 (delay source)
     for b in crate.bodies:
         if "/src/client/" not in b.file:
@@ -527,3 +531,262 @@ def check(facts, rep, tier, cfg):
     if "client" in crate.features:
         rep.floor("C19.R10", "acquisitions of the stream-request channel", k10, 3)
 
+    # ---- R11 an error on the connection path is reported as itself: conversions wrap the original error, they never replace it
+    rep.rule("C19.R11", "client connect path: every conversion into the client's Error (map_err mapper, or a construction on the Err edge of a "
+                        "fallible call) carries the original error as payload; no arm replaces it by a synthesised error whose retry class differs")
+    k11 = 0
+    cerr = lambda s: bool(s) and s.split("<")[0].endswith("client::Error")
+    for b in crate.bodies:
+        if "/src/client/ws_connect.rs" not in b.file and "/src/client/mod.rs" not in b.file:
+            continue
+        for bi, t in b.calls():
+            c = callee(t)
+            if not c or c["name"] != "map_err" or "Result" not in c["def"]:
+                continue
+            m = c["path"].rsplit("map_err::<", 1)
+            if len(m) != 2 or not cerr(m[1].split(",")[0].strip()):
+                continue
+            k11 += 1
+            where = "%s (%s)" % (loc_str(t["loc"]), b.path)
+            key = "wraps-original/%s#%d" % (b.path.split("::{")[0], k11)
+            mp = t["args"][1]
+            if mp["k"] == "const" and mp.get("fn"):
+                if "constructor" in mp["fn"]["dp"] or cerr(mp["fn"]["path"].rsplit("::", 1)[0]):
+                    rep.ok("C19.R11", key, where, "mapper is the variant constructor %s" % mp["fn"]["path"])
+                else:
+                    rep.ok("C19.R11", key, where, "mapper is the function %s" % mp["fn"]["path"], nontrivial=False)
+                continue
+            # closure mapper: locate its body through the aggregate that creates it
+            tr = Tracer(facts, b)
+            n = strip(tr.operand(mp))
+            cb = None
+            if n.kind == "agg" and n[1] == "closure":
+                cb = facts.by_dp.get(n[2])
+            if cb is None:
+                rep.bad("C19.R11", key, where, "the error mapper of this map_err is neither a variant constructor nor a closure whose body can be located")
+                continue
+            rep.analysed(cb)
+            ctr = Tracer(facts, cb)
+            badsite = None
+            nagg = 0
+            for cbi in range(len(cb.blocks)):
+                if cbi not in cb.reach0:
+                    continue
+                for s in cb.blocks[cbi]["stmts"]:
+                    if s["k"] == "Assign" and s["rv"]["k"] == "Aggregate" and s["rv"]["agg"]["a"] == "Adt" and cerr(s["rv"]["agg"]["adt"]) and s["rv"]["ops"]:
+                        nagg += 1
+                        nodes = [ctr.operand(o) for o in s["rv"]["ops"]]
+                        if not any(x.kind == "param" and x[1] == 2 for nn in nodes for x in walk(nn)):
+                            badsite = (s, s["rv"]["agg"]["variant"])
+            if badsite:
+                rep.bad("C19.R11", key, "%s (%s)" % (loc_str(badsite[0]["loc"]), cb.path),
+                        "this error mapper builds `Error::%s` from something other than the error it was given: the original error (and with it the "
+                        "retryable/fatal classification of maybe_retryable.rs) is replaced, so a failure that must lead to a reconnect with back-off "
+                        "can end the client at once (or the reverse)" % badsite[1])
+            else:
+                rep.ok("C19.R11", key, where, "closure mapper: all %d constructed errors carry the mapped error" % nagg)
+    if "client" in crate.features:
+        rep.floor("C19.R11", "error conversions on the connect path", k11, 2)
+    # R11 (match form): a client Error built on the Err edge of a fallible call carries that call's error
+    for b in crate.bodies:
+        if "/src/client/ws_connect.rs" not in b.file:
+            continue
+        tr = None
+        for bi in range(len(b.blocks)):
+            if bi not in b.reach0 or b.blocks[bi]["cleanup"]:
+                continue
+            for s in b.blocks[bi]["stmts"]:
+                if not (s["k"] == "Assign" and s["rv"]["k"] == "Aggregate" and s["rv"]["agg"]["a"] == "Adt" and cerr(s["rv"]["agg"]["adt"]) and s["rv"]["ops"]):
+                    continue
+                tr = tr or Tracer(facts, b)
+                seen_calls = []
+
+                def want(g):
+                    if g.kind == "discr" and g.adt and g.adt.endswith("::Result"):
+                        cs = set(x[4] for x in walk(g.pred) if x.kind == "call")
+                        if cs:
+                            seen_calls.append(cs)
+                            return {"Err"}
+                    return None
+                lits = edge_literals_dominating(facts, b, tr, bi, want)
+                if not lits:
+                    continue
+                doms = set()
+                for gb, _v in lits:
+                    g = guard_at(facts, b, tr, gb)
+                    doms |= set(x[4] for x in walk(g.pred) if x.kind == "call")
+                pay = set(x[4] for o in s["rv"]["ops"] for x in walk(tr.operand(o)) if x.kind == "call")
+                where = "%s (%s)" % (loc_str(s["loc"]), b.path)
+                key = "wraps-original/%s/Error::%s" % (b.path.split("::{")[0], s["rv"]["agg"]["variant"])
+                if pay & doms:
+                    rep.ok("C19.R11", key, where, "built from the failed call's own error")
+                else:
+                    rep.bad("C19.R11", key, where,
+                            "`Error::%s` is built on the failure edge of a call but not from that call's error: the original error (and its "
+                            "retryable/fatal class) is replaced" % s["rv"]["agg"]["variant"])
+    # ---- R8 (io kinds, wildcard arms): the classification of std::io::Error by kind, evaluated per kind over the CFG
+    r8_io_kinds(facts, rep, crate)
+
+
+IO_RETRY = ["ConnectionRefused", "ConnectionReset", "ConnectionAborted", "NotConnected", "BrokenPipe", "TimedOut", "UnexpectedEof",
+            "HostUnreachable", "NetworkUnreachable", "NetworkDown", "AddrNotAvailable"]
+IO_FATAL = ["PermissionDenied", "InvalidInput", "InvalidData", "Unsupported", "OutOfMemory", "Other"]
+
+
+def eval_kind_predicate(facts, b, tr, kind):
+    """Abstractly run a `fn(&io::Error) -> bool` whose only input is `self.kind()` for kind = `kind`.
+    Returns True / False, or None when a branch does not depend on kind() compared with constant kinds."""
+    adt = facts.adts.get("core::io::error::ErrorKind") or facts.adts.get("std::io::ErrorKind")
+    discr_of = {v["name"]: v["discr"] for v in adt["variants"]} if adt else {}
+    val = {}          # local -> bool
+    ret = None
+    bb, steps = 0, 0
+
+    def kconst(op):
+        n = strip(tr.operand(op))
+        if n.kind == "agg" and n[1] == "adt" and "ErrorKind::" in n[2]:
+            return n[2].rsplit("::", 1)[1]
+        return None
+
+    def is_kind(op):
+        n = strip(tr.operand(op))
+        return n.kind == "call" and n[6] == "kind"
+    while steps < 4000:
+        steps += 1
+        blk = b.blocks[bb]
+        for s in blk["stmts"]:
+            if s["k"] != "Assign" or s["lhs"].get("p"):
+                continue
+            l, rv = s["lhs"]["l"], s["rv"]
+            if rv["k"] == "Use":
+                o = rv["ops"][0]
+                if o["k"] == "const":
+                    cv = const_eval(tr.operand(o))
+                    if isinstance(cv, (bool, int)):
+                        val[l] = bool(cv)
+                elif o.get("p") and not o["p"].get("p") and o["p"]["l"] in val:
+                    val[l] = val[o["p"]["l"]]
+            elif rv["k"] == "UnaryOp" and rv.get("op") == "Not":
+                o = rv["ops"][0]
+                if o.get("p") and not o["p"].get("p") and o["p"]["l"] in val:
+                    val[l] = not val[o["p"]["l"]]
+            elif rv["k"] == "Discriminant":
+                n = strip(tr.place(rv["place"]))
+                if n.kind == "call" and n[6] == "kind" and kind in discr_of:
+                    val[l] = ("D", discr_of[kind])
+        t = blk["term"]
+        k = t["k"]
+        if k == "Return":
+            return val.get(0)
+        if k in ("Goto", "Drop", "FalseEdge", "FalseUnwind", "Assert"):
+            bb = t.get("target") if t.get("target") is not None else (b.succ[bb][0] if b.succ[bb] else None)
+            if bb is None:
+                return None
+            continue
+        if k == "Call":
+            c = callee(t)
+            d = (t.get("dest") or {}).get("l")
+            if c and c["name"] in ("eq", "ne") and "ErrorKind" in c["path"] and len(t["args"]) == 2:
+                a0, a1 = t["args"]
+                kc = kconst(a1) if is_kind(a0) else (kconst(a0) if is_kind(a1) else None)
+                if kc is None:
+                    return None
+                val[d] = (kc == kind) if c["name"] == "eq" else (kc != kind)
+            nxt = [x for x in b.succ[bb] if not b.blocks[x]["cleanup"]]
+            if not nxt:
+                return None
+            bb = nxt[0]
+            continue
+        if k == "SwitchInt":
+            dl = t["discr"].get("p", {}).get("l")
+            v = val.get(dl)
+            if v is None or t["discr"].get("p", {}).get("p"):
+                return None
+            iv = v[1] if isinstance(v, tuple) else int(v)
+            tgt = None
+            for tv, tb in t["targets"]:
+                if tv == iv:
+                    tgt = tb
+            bb = tgt if tgt is not None else t["otherwise"]
+            continue
+        return None
+    return None
+
+
+def r8name(adt):
+    if adt.startswith("rusty_penguin_lib::client"):
+        return "client"
+    if adt.startswith("penguin_mux"):
+        return "mux"
+    return "::".join(adt.split("::")[-2:]) if not adt.startswith("rusty") else adt.split("::", 1)[1]
+
+
+def r8_io_kinds(facts, rep, crate):
+    k = 0
+    for b in crate.bodies:
+        if b.name != "retryable" or "maybe_retryable" not in b.path:
+            continue
+        adt = (b.j.get("impl_self") or {}).get("adt") or ""
+        where = "%s (%s)" % (loc_str(b.loc), b.path)
+        tr = Tracer(facts, b)
+        if adt.endswith("io::error::Error"):
+            rep.analysed(b)
+            for kind, want in [(x, True) for x in IO_RETRY] + [(x, False) for x in IO_FATAL]:
+                got = eval_kind_predicate(facts, b, tr, kind)
+                if got is None:
+                    rep.info("C19.R8: retryable() of std::io::Error is not a function of kind()-against-constant comparisons any more; "
+                             "kind `%s` not decided" % kind)
+                    continue
+                k += 1
+                if got == want:
+                    rep.ok("C19.R8", "io-kind/%s" % kind, where, "-> %s" % want)
+                else:
+                    rep.bad("C19.R8", "io-kind/%s" % kind, where,
+                            "an I/O error of kind %s is classified %s by retryable(), expected %s: %s" % (
+                                kind, "retryable" if got else "fatal", "retryable" if want else "fatal",
+                                "a connection lost / not established for this reason ends the client instead of being retried with back-off"
+                                if want else "an error that cannot be cured by reconnecting is retried instead of ending the client at once"))
+            continue
+        # wildcard arms of the enum classifiers: everything not listed is fatal
+        if not adt:
+            continue
+        for gb in range(len(b.blocks)):
+            if b.term(gb)["k"] != "SwitchInt" or gb not in b.reach0:
+                continue
+            g = guard_at(facts, b, tr, gb)
+            if g is None or g.kind != "discr" or g.adt != adt:
+                continue
+            t = b.term(gb)
+            ob = t["otherwise"]
+            if b.term(ob)["k"] == "Unreachable":
+                continue
+            # value assigned to _0 on the wildcard edge
+            vals = set()
+            seen, st = set(), [ob]
+            while st:
+                x = st.pop()
+                if x in seen:
+                    continue
+                seen.add(x)
+                for s in b.blocks[x]["stmts"]:
+                    if s["k"] == "Assign" and s["lhs"]["l"] == 0 and not s["lhs"].get("p"):
+                        cv = const_eval(strip(tr.rvalue(s["rv"])))
+                        vals.add(bool(cv) if cv is not None else "call")
+                tt = b.term(x)
+                if tt["k"] == "Call" and (tt.get("dest") or {}).get("l") == 0:
+                    vals.add("call")
+                if tt["k"] in ("Return",):
+                    continue
+                if tt["k"] == "SwitchInt":
+                    continue
+                st.extend(y for y in b.succ[x] if not b.blocks[y]["cleanup"])
+            k += 1
+            key = "wildcard/%s" % "::".join(adt.split("::")[-3:] if adt.startswith("rusty") else adt.split("::"))
+            if vals == {False}:
+                rep.ok("C19.R8", key, where, "unlisted variants -> fatal")
+            elif True in vals:
+                rep.bad("C19.R8", key, where,
+                        "the wildcard arm of retryable() for %s yields true: every error that is not listed (configuration, protocol, "
+                        "cancellation...) is retried instead of ending the client at once" % adt)
+    if "client" in crate.features:
+        rep.floor("C19.R8", "io kinds and wildcard arms decided", k, len(IO_RETRY) + len(IO_FATAL) + 3)
